@@ -147,6 +147,26 @@ def obligations(S):
                     rhs_const = True
         if frhs is not None and not rhs_const:
             add("fallible-rhs-that-runs-makes-the-result-fallible", z3.Implies(frhs, fr), detail)
+        if op == "Or" and frhs is None:
+            # the rhs is statically dead: the lhs must never be falsy at runtime -- its kind excludes null, boolean AND
+            # undefined (a missing field reads as null), or its constant is `true`
+            pcs = [str(c).replace("\n", " ") for c in p.st.pc]
+
+            def polarity(sub):
+                for c in pcs:
+                    k = 0
+                    while c.startswith("Not(") and c.endswith(")"):
+                        c, k = c[4:-1], k + 1
+                    if sub in c:
+                        return k % 2 == 0
+                return None
+            const_true = polarity("Some(Boolean(True))") is True
+            kinds_ok = polarity("contains_null(") is False and polarity("contains_boolean(") is False and polarity("contains_undefined(") is False
+            o = Obl("C01:Op::type_info[Or]:rhs-is-dead-only-when-the-lhs-is-never-falsy", {"C01", "C02"},
+                    f"C01:Op::type_info[Or]:rhs-is-dead-only-when-the-lhs-is-never-falsy#path{pi}", p, z3.BoolVal(bool(const_true or kinds_ok)),
+                    {"path_condition": pcs[1:6]})
+            o.ex = ex
+            obls.append(o)
         if op == "And" and frhs is not None:
             atoms = [a for (u, k, a) in p.st.ghost.get("unless", []) if u == typed[RHS] and "null" in k and "boolean" in k]
             add("rhs-that-runs-must-be-boolean-or-null-or-the-result-is-fallible", z3.Implies(atoms[0], fr) if atoms else z3.BoolVal(False),
@@ -235,6 +255,8 @@ def block_battery():
 def battery():
     N = {"accepted_never_fails": True}
     return [
+        ({"source": "x = {}\ny = x.foo || \"s\"\n.r = y\n", "event": {}}, {"outcome": "ok", "types_sound": True}),
+        ({"source": "x = {\"a\": 1}\ndel(x.a)\ny = x.a || 5\n.r = y\n", "event": {}}, {"outcome": "ok", "types_sound": True}),
         ({"source": ".r = parse_int(\"abc\") / 2\n", "event": {}}, N),
         ({"source": ".r = parse_int(.s) / 2.5\n", "event": {"s": "zz"}}, N),
         ({"source": ".r = true && 5\n", "event": {}}, N),
